@@ -430,6 +430,146 @@ def run_structured(ctx, n):
     return good
 
 
+# ------------------------------------------------------------------ over-long lines among ordinary headers (the no-refold fallback of _msg_generator)
+def gen_long_field(rng):
+    """one field whose first line is longer than 78 bytes; many of these cannot be re-folded by email (structured
+    header parsers raise), the others are re-folded"""
+    r = rng.randrange(12)
+    if r == 0:
+        return (b'To', b'a@b.c;,:<>' * rng.randrange(8, 13), [])
+    if r == 1:
+        return (rng.choice([b'Message-ID', b'Message-Id', b'In-Reply-To']), b'<' * rng.randrange(70, 100), [])
+    if r == 2:
+        return (rng.choice([b'To', b'Cc', b'From']), b'(unclosed comment ' + b'x' * rng.randrange(60, 90), [])
+    if r == 3:
+        return (b'8', b'lo=(commd\xff=?utf-8?b?w6k=?==?utf-8?b?w6k=?==?utf-8?b?w6k=?==?utf-8\xff?b?wurn-Pa', [])
+    if r == 4:
+        return (rng.choice([b'Reply-To', b'Sender']), b'; from a.example by b.example<user@example.com>,' + b'x' * 40 + b'= :..,:~::\x80', [])
+    if r == 5:
+        return (b'Subject', b'word ' * rng.randrange(16, 30) + b'end', [])                      # re-folded
+    if r == 6:
+        return (b'X-Long', b'x' * rng.randrange(79, 200), [])                                    # cannot be folded, kept
+    if r == 7:
+        return (b'Received', b'from a.example by b.example ' * rng.randrange(3, 6) + b'; Mon, 1 Jan 2024 00:00:00 +0000', [])
+    # random pieces (as gen_overlong), single first line, optional ordinary continuation line
+    name = rng.choice([b'Subject', b'To', b'From', b'Date', b'Message-Id', b'Content-Type', b'Content-Disposition', b'MIME-Version',
+                       b'Received', b'X-Foo', b'Sender', b'Reply-To', b'Cc'])
+    v = b''
+    while len(name) + 2 + len(v) <= 78 + rng.randrange(0, 40):
+        v += rng.choice(VPIECES + [b' ', b' '])
+    v = v.lstrip(b' \t') or b'x' * 90
+    conts = []
+    if rng.random() < 0.3:
+        lead = rng.choice(BLANKS)
+        conts.append(lead + gen_text(rng, 78 - len(lead), False, True))
+    return (name, v, conts)
+
+
+def email_folds(header_part):
+    """email as the oracle of the model's fold_smtp: for every stored header, in order, what policy SMTP's
+    fold_binary gives ([bytes]) or [] when it raises"""
+    msg = BytesParser(policy=SMTP).parse(BytesIO(header_part), True)
+    out = []
+    for name, value in msg.raw_items():
+        try:
+            out.append([SMTP.fold_binary(name, value)])
+        except Exception:
+            out.append([])
+    return out
+
+
+def split_fields(block):
+    """independent splitter of a generated header block (without the blank line) into its fields"""
+    out = []
+    for line in block.split(b'\r\n')[:-1]:
+        if line[:1] in (b' ', b'\t') and out:
+            out[-1] += line + CRLF
+        else:
+            out.append(line + CRLF)
+    return out
+
+
+def run_fallback(ctx, n):
+    rng = ctx.rng
+    cases = []
+    while len(cases) < n:
+        k = rng.randrange(1, 5)
+        ordinary = []
+        while len(ordinary) < k:
+            ordinary += [f for f in gen_fields(rng) if strict_class([f])]
+        ordinary = ordinary[:k]
+        if rng.random() < 0.4 and k >= 2 and len(ordinary[0][0]) + 2 + len(ordinary[-1][1]) <= 78:
+            ordinary[-1] = (ordinary[0][0], ordinary[-1][1], ordinary[-1][2])            # duplicate name
+        lf = gen_long_field(rng)
+        for pos in range(k + 1):                                                           # first, every middle position, last
+            fs = ordinary[:pos] + [lf] + ordinary[pos:]
+            mode = rng.choice(['crlf', 'crlf', 'lf', 'mixed'])
+            H, blank = render(fs, rng, mode)
+            cases.append((fs, pos, H, blank, gen_body(rng), mode))
+    datas = [H + blank + body for (fs, pos, H, blank, body, mode) in cases]
+    folds = [email_folds(H + blank) for (fs, pos, H, blank, body, mode) in cases]
+    outs = ctx.model.batch('c20_parse_flatten_x', [[d, f] for d, f in zip(datas, folds)])
+    for (fs, pos, H, blank, body, mode), data, fl, o in zip(cases, datas, folds, outs):
+        raw = [split for split in split_fields(hnorm_py(fs))]
+        path = 'fallback' if any(not x for x in fl) else ('refolded' if [x[0] for x in fl] != raw else 'as-received')
+        where = 'first' if pos == 0 else ('last' if pos == len(fs) - 1 else 'middle')
+        ctx.count('long-line:%s:%s' % (path, where))
+        case = dict(kind='long-line', data=data, header_block=H, blank=blank, body=body, long_field_index=pos, path=path)
+        ctx.evaluated(('x', data), nontrivial=True)
+        if path == 'fallback':
+            ctx.sample(dict(kind='long-line', data=data, long_field_index=pos, path=path), cap=5)
+        r = check_no_raise(ctx, data, 'long-line')
+        if r is None:
+            continue
+        e, flat = r
+        mo = (B(o[1]), B(o[2])) if o[0] == 0 else ('model-tag', o[0])
+        if flat != mo or len(fl) != len(fs):
+            ctx.mismatch('parse-flatten-long-line', case, flat, mo)
+        # ---- implementation-only oracle: same header field list (names and values, in order, same multiplicity), same body
+        problems = []
+        if flat[1] != body:
+            ctx.fail('c20:body-changed', case, 'flatten() body %r, expected %r' % (flat[1], body))
+        if flat[0][-2:] != CRLF:
+            problems.append('header data does not end with the blank line')
+        got = split_fields(flat[0][:-2])
+        want = split_fields(hnorm_py(fs))
+        if path == 'fallback':
+            # written as received: the whole field list, names and values, in order, each exactly once
+            if len(got) != len(want):
+                problems.append('%d header fields written, the message has %d' % (len(got), len(want)))
+            for i, (g, w) in enumerate(zip(got, want)):
+                if g != w:
+                    problems.append('field %d is %r, expected %r' % (i, g, w))
+        else:
+            # email re-folded the long field itself (what it writes for it is email's business, it can even break the line
+            # without leading white space); the ordinary fields in front of and behind it must be there once, unchanged
+            after = len(want) - pos - 1
+            if got[:pos] != want[:pos]:
+                problems.append('fields in front of the long one are %r, expected %r' % (got[:pos], want[:pos]))
+            if (got[len(got) - after:] if after else []) != want[pos + 1:]:
+                problems.append('fields behind the long one are %r, expected %r' % (got[len(got) - after:], want[pos + 1:]))
+            mid = b''.join(got[pos:len(got) - after])
+            if not mid.startswith(want[pos].split(b':')[0] + b':'):
+                problems.append('the long field was written as %r' % (mid,))
+            if len(got) != len(want):
+                ctx.count('long-line:email-refold-breaks-line-without-leading-blank')
+                ctx.note('email re-folds some over-long malformed lines with a line break that is not followed by white space '
+                         '(stdlib behaviour on the refold path, not the fallback path; counted, not judged)')
+        if problems:
+            ctx.fail('c20:header-block-changed', case, '; '.join(problems[:4]) + '; flatten() header data = %r' % (flat[0],))
+            continue
+        if path == 'fallback':
+            try:
+                e2 = Envelope()
+                e2.parse(flat[0] + flat[1])
+                flat2 = e2.flatten()
+            except Exception as ex:
+                flat2 = ('raises', exc_name(ex))
+            if flat2 != flat:
+                ctx.fail('c20:not-a-fixed-point', case, 're-parsing flatten() output gives %r, first %r' % (flat2, flat))
+
+
+
 def encoded_body(body, which):
     """stdlib encoder output for the body as the generator writes it (the oracle input of the model)"""
     text = body.replace(b'\r\n', b'\n').replace(b'\r', b'\n')        # BytesParser reads through a universal-newlines TextIOWrapper
@@ -538,6 +678,10 @@ def run(ctx):
         '8-bit, header-looking and white-space-only lines: flatten(), re-parse, copy, deep copy mutation probe, pickle (2 protocols) compared '
         'with the model (class codec) and with an independent rendering; the same inputs and arbitrary / mutated / small-alphabet-exhaustive byte '
         'strings through parse/flatten/copy/pickle for the never-raises claim and through the model with email\'s answers as codec oracle; '
+        'long-line: one field with a line > 78 bytes (address / msg-id / comment garbage that email cannot re-fold, and long foldable text) placed at every '
+        'position among 1-4 ordinary fields (folded, 8-bit, duplicate names): flatten() must write every field exactly once in order - the ordinary ones '
+        'byte-identical (CRLF), the long one as received when email raises (no-refold fallback), same body - plus copy, pickle, re-parse fixed point; '
+        'compared with the model of _msg_generator (two attempts, fresh buffers) given email\'s per-header fold_binary answers; '
         '7bit: single-part UTF-8 CRLF text bodies x {no encoder, base64, quoted-printable} x existing Content-Type / Content-Transfer-Encoding fields. '
         'non-trivial = anything beyond a pure-CRLF unfolded ASCII message / an input containing a line break / an 8-bit body for 7bit')
     q = ctx.quick
@@ -546,6 +690,7 @@ def run(ctx):
     ne = run_exhaustive_small(ctx, 5 if q else 7)
     run_arbitrary(ctx, [gen_arbitrary(ctx.rng, good) for _ in range(1500 if q else 20000)], 'random')
     run_arbitrary(ctx, [gen_overlong(ctx.rng) for _ in range(600 if q else 8000)], 'overlong')
+    run_fallback(ctx, 900 if q else 12000)
     run_7bit(ctx, 500 if q else 6000)
     ctx.extra['exhaustive'] = True
     ctx.extra['exhaustive_bound'] = ('boundary search: all %d byte strings over {CR,LF,SP,a,TAB} up to length %d; parse/flatten/copy/pickle never-raise '
@@ -581,6 +726,14 @@ def replay(ctx, case):
         print('implementation: flatten() =', flat)
         e2 = Envelope(); e2.parse(flat[0] + flat[1])
         print('implementation: re-parsed  =', e2.flatten())
+        if c.get('kind') == 'long-line':
+            m = re.search(br'\r?\n\s*?\n', data)
+            hd = data[:m.end(0)] if m else data
+            fl = email_folds(hd)
+            print('message has %d header fields (email cannot re-fold: %r); flatten() wrote %d' % (
+                len(fl), [i for i, x in enumerate(fl) if not x], len(split_fields(flat[0][:-2]))))
+            if ctx.model:
+                print('model (_msg_generator, fresh buffers):', ctx.model.call('c20_parse_flatten_x', [data, fl]))
         print('implementation: copy probe =', mutation_probe(e, flat))
     except Exception as ex:
         print('implementation: raises %r' % ex)
